@@ -816,15 +816,16 @@ fn barrier_family(out: &mut Out) {
 fn template_family(out: &mut Out) {
     use chrono::{TimeZone, Utc};
     use zerv::cli::utils::template::{Template, TemplateExt};
+    // the renderer trims the whole output: the expression is put between brackets so that whitespace it produces is observed
     let render = |t: String| -> Result<String, String> {
-        let tpl: Template<String> = Template::new(t.clone());
+        let tpl: Template<String> = Template::new(format!("[{t}]"));
         match std::panic::catch_unwind(std::panic::AssertUnwindSafe(|| tpl.render_string(None))) {
             Err(_) => Err(format!("PANIC: {}", LAST_PANIC.lock().map(|g| g.replace('\n', " ")).unwrap_or_default())),
-            Ok(Ok(s)) => Ok(s),
+            Ok(Ok(s)) => Ok(s.strip_prefix('[').and_then(|x| x.strip_suffix(']')).map(String::from).unwrap_or(s)),
             Ok(Err(e)) => Err(format!("error: {e}")),
         }
     };
-    let values = ["", "a", "abc", "aé", "éé", "日本語x", "feature/x-1", "0007", "a b", "Ｋ"];
+    let values = ["", "a", "abc", "aé", "éé", "日本語x", "feature/x-1", "0007", "a b", "Ｋ", " ", "  ", " a", "\u{a0}", "0", "+"];
     for v in values {
         for len in [0usize, 1, 2, 3, 7, 30] {
             out.cases += 1;
@@ -1366,6 +1367,77 @@ fn bump_sequence_family(out: &mut Out) {
     }
 }
 
+// ------------------------------------------------------------------ Zerv RON round trip (C12): serde/ron code no contract reaches
+
+fn ron_roundtrip_family(out: &mut Out) {
+    use zerv::version::zerv::bump::precedence::{Precedence, PrecedenceOrder};
+    use zerv::version::zerv::components::{Component as C, Var};
+    use zerv::version::zerv::core::{PreReleaseVar, Zerv};
+    use zerv::version::zerv::{ZervSchema, ZervVars};
+    use zerv::schema::ZervSchemaPreset as P;
+    let fam = "ron_roundtrip";
+    let texts = ["", "plain", "with \"quotes\"", "back\\slash", "new\nline", "tab\there", "ünï/çødé-日本", "(paren) [brack] {brace}", "r#\"raw\"#", "'single'", "a,b: c", "//comment", "0", " lead and trail "];
+    let mut schemas: Vec<ZervSchema> = vec![];
+    for p in [P::StandardBase, P::StandardBasePrerelease, P::StandardBasePrereleasePost, P::StandardBasePrereleasePostDev, P::StandardBaseContext, P::StandardBasePrereleaseContext,
+              P::StandardBasePrereleasePostContext, P::StandardBasePrereleasePostDevContext, P::CalverBase, P::CalverBasePrerelease, P::CalverBasePrereleasePost,
+              P::CalverBasePrereleasePostDev, P::CalverBaseContext, P::CalverBasePrereleaseContext, P::CalverBasePrereleasePostContext, P::CalverBasePrereleasePostDevContext] {
+        schemas.push(p.schema());
+    }
+    let core = vec![C::Var(Var::Major), C::Var(Var::Minor), C::Var(Var::Patch)];
+    for order in [vec![], vec![Precedence::Major], vec![Precedence::Dev, Precedence::Post, Precedence::Patch, Precedence::Minor, Precedence::Major],
+                  vec![Precedence::Epoch, Precedence::Major, Precedence::Minor, Precedence::Patch, Precedence::Core, Precedence::PreReleaseLabel, Precedence::PreReleaseNum, Precedence::Post, Precedence::Dev, Precedence::ExtraCore, Precedence::Build]] {
+        if let Ok(s) = ZervSchema::new_with_precedence(core.clone(), vec![C::Var(Var::Epoch), C::Var(Var::PreRelease)], vec![C::Var(Var::BumpedBranch)], PrecedenceOrder::from_precedences(order.clone())) {
+            schemas.push(s);
+        }
+        if let Ok(s) = ZervSchema::new_with_precedence(vec![], vec![], vec![C::UInt(1)], PrecedenceOrder::from_precedences(order)) {
+            schemas.push(s);
+        }
+    }
+    for t in texts {
+        if let Ok(s) = ZervSchema::new(core.clone(), vec![C::Str(t.to_string()), C::UInt(u64::MAX)], vec![C::Var(Var::Custom(t.to_string())), C::Var(Var::Timestamp("YYYY".into())), C::Str(t.to_string())]) {
+            schemas.push(s);
+        }
+    }
+    let mut varsets: Vec<ZervVars> = vec![ZervVars::default()];
+    for t in texts {
+        varsets.push(ZervVars {
+            major: Some(1), minor: Some(0), patch: Some(u64::MAX), epoch: Some(0),
+            pre_release: Some(PreReleaseVar { label: PreReleaseLabel::Rc, number: None }), post: Some(3), dev: None,
+            distance: Some(7), dirty: Some(true), bumped_branch: Some(t.to_string()), bumped_commit_hash: Some(t.to_string()), bumped_timestamp: Some(1710511845),
+            last_branch: Some(t.to_string()), last_commit_hash: None, last_timestamp: Some(0), last_tag_version: Some(t.to_string()),
+            custom: serde_json::json!({ "k": t, "nested": { "n": [1, 2.5, null, true, t], "o": {} }, t: 1 }),
+        });
+    }
+    varsets.push(ZervVars { custom: serde_json::json!(null), ..Default::default() });
+    varsets.push(ZervVars { custom: serde_json::json!([1, "x"]), pre_release: Some(PreReleaseVar { label: PreReleaseLabel::Alpha, number: Some(0) }), ..Default::default() });
+    varsets.push(ZervVars { custom: serde_json::json!("just text"), major: Some(0), ..Default::default() });
+    for schema in &schemas {
+        for vars in &varsets {
+            out.cases += 1;
+            let z = Zerv { schema: schema.clone(), vars: vars.clone() };
+            let text = z.to_string();
+            let back = match Zerv::from_str(&text) {
+                Ok(b) => b,
+                Err(e) => { out.cex(fam, format!("class=emitted-object-rejected an emitted Zerv object does not parse back: {e}; object starts {:?}", text.chars().take(160).collect::<String>())); continue; }
+            };
+            if back != z {
+                let what = if back.schema != z.schema { "schema" } else { "vars" };
+                out.cex(fam, format!("class=not-identical emitted Zerv object parses back to a different object ({what} differ): emitted {:?}", text.chars().take(400).collect::<String>().replace('\n', " ")));
+                continue;
+            }
+            let again = back.to_string();
+            if again != text {
+                out.cex(fam, format!("class=re-emission-differs re-emitting the parsed object is not byte-identical: first {:?} then {:?}", text.chars().take(200).collect::<String>(), again.chars().take(200).collect::<String>()));
+            }
+            let (a, b) = (SemVer::from(z.clone()).to_string(), SemVer::from(back.clone()).to_string());
+            let (c, d) = (PEP440::from(z.clone()).to_string(), PEP440::from(back).to_string());
+            if a != b || c != d {
+                out.cex(fam, format!("class=pipe-rendering-differs rendering through the RON pipe differs: direct {a:?} / {c:?}, piped {b:?} / {d:?}"));
+            }
+        }
+    }
+}
+
 fn main() {
     let fam = std::env::args().nth(1).unwrap_or_default();
     let mut out = Out { found: 0, cases: 0, per_class: Default::default() };
@@ -1407,6 +1479,7 @@ fn run_family(fam: &str, out: &mut Out) {
         "template_functions" => template_family(&mut out),
         "semver_from_zerv" => placement_family(&mut out, true),
         "bump_sequence" => bump_sequence_family(&mut out),
+        "ron_roundtrip" => ron_roundtrip_family(&mut out),
         "semver_roundtrip" => semver_roundtrip_family(&mut out),
         "pep440_roundtrip" => pep440_roundtrip_family(&mut out),
         "tag_max_semver" => tag_max_family(&mut out, true),
